@@ -609,8 +609,9 @@ impl DrawExecutor {
     }
 
     fn blit_screen_to_screen(&mut self, _write_mode: i32, from: Position, to: Position, dest: Position) {
-        let width = to.x - from.x;
-        let height = to.y - from.y;
+        let res = self.get_resolution();
+        let width = (to.x - from.x).min(res.width);
+        let height = (to.y - from.y).min(res.height);
 
         for y in 0..height {
             for x in 0..width {
@@ -644,14 +645,15 @@ impl DrawExecutor {
     }
 
     fn blit_screen_to_memory(&mut self, _write_mode: i32, from: Position, to: Position) {
-        let width = to.x - from.x;
-        let height = to.y - from.y;
+        let res = self.get_resolution();
+        let width = (to.x - from.x).min(res.width);
+        let height = (to.y - from.y).min(res.height);
 
         self.screen_memory_size = Size::new(width, height);
         self.screen_memory.clear();
 
-        for y in from.y..to.y {
-            for x in from.x..to.x {
+        for y in from.y..from.y + height {
+            for x in from.x..from.x + width {
                 let color = self.get_pixel(x, y);
                 self.screen_memory.push(color);
             }
